@@ -21,6 +21,7 @@
 """CAN C writer module."""
 
 import os
+import re
 
 from beartype.typing import Generator, List, Dict, Optional, Tuple
 from math import ceil
@@ -130,6 +131,9 @@ class CanSignal:
             self.scalar_type = type_map[
                 ("i" if self.signed else "u") + str(ceil_to_power_of_2(self.bit_length))
             ]
+            # short types (i12, u5...) are stored in their carrier type, user defined types keep their name
+            if re.fullmatch(r"[iu]\d+", self.data_type):
+                self.data_type = self.scalar_type
         else:
             self.scalar_type = self.data_type
 
